@@ -9,6 +9,9 @@
 #include "tree_builder.h"
 #include "hashchain.h"
 #include "env/tree_env.h"
+#ifdef USE_CHAIN
+#include "env/chain_env.h"        /* links, link list, integers, chain container (path extraction jobs) */
+#endif
 #include "contracts/tree_builder_addnode.h"
 #include "contracts/tree_builder_join.h"
 #include "contracts/tree_builder_insert.h"
@@ -165,49 +168,137 @@ void harness(void) {
 /* builder with at most three subtrees, in slots 0..2 (distinct childless heap nodes); every other slot is
  * concretely empty so that the 256-slot loops unwind cheaply */
 static KSI_TreeNode *g_n0, *g_n1, *g_n2;
+#define ZERO1(i) g_tb.stack[i] = NULL;
+#define ZERO4(i) ZERO1(i) ZERO1(i + 1) ZERO1(i + 2) ZERO1(i + 3)
+#define ZERO16(i) ZERO4(i) ZERO4(i + 4) ZERO4(i + 8) ZERO4(i + 12)
+#define ZERO64(i) ZERO16(i) ZERO16(i + 16) ZERO16(i + 32) ZERO16(i + 48)
 static int mk_builder_small(void) {
 	g_tb.ctx = &g_ctx_obj; g_tb.ref = 1; g_tb.rootNode = NULL; g_tb.algo = KSI_HASHALG_SHA2_256;
 	g_tb.cbList = NULL; g_tb.hsr = &g_hsr; g_tb.maxTreeLevel = 0;
-	memset(g_tb.stack, 0, sizeof(g_tb.stack));
+	ZERO64(0) ZERO64(64) ZERO64(128) ZERO64(192)     /* element-wise, so that symex sees concrete NULLs */
 	g_n0 = nondet_bool() ? mk_node() : NULL; g_n1 = nondet_bool() ? mk_node() : NULL; g_n2 = nondet_bool() ? mk_node() : NULL;
-	if (g_n0 != NULL && !TN_WELLFORMED(g_n0)) return 0;
-	if (g_n1 != NULL && !TN_WELLFORMED(g_n1)) return 0;
-	if (g_n2 != NULL && !TN_WELLFORMED(g_n2)) return 0;
+	/* nodes held by a builder were made by KSI_TreeNode_new / join: one of hash / meta-data, level 0..255 */
+	if (g_n0 != NULL && (!TN_WELLFORMED(g_n0) || g_n0->level > 0xff)) return 0;
+	if (g_n1 != NULL && (!TN_WELLFORMED(g_n1) || g_n1->level > 0xff)) return 0;
+	if (g_n2 != NULL && (!TN_WELLFORMED(g_n2) || g_n2->level > 0xff)) return 0;
 	g_tb.stack[0] = g_n0; g_tb.stack[1] = g_n1; g_tb.stack[2] = g_n2;
 	g_w1 = nondet_size(); g_w2 = nondet_size();
 	return 1;
 }
 
 #ifdef H_close
+/* Plain mode (no dfcc): the 256-slot loop is unwound completely, the postconditions of
+ * contracts/tree_builder_close.h are asserted here with the pre-state captured by the harness. */
 void harness(void) {
-	int res; long long want = -1;
+	int res; long long want = -1; long live0; unsigned failed0; KSI_TreeNode *root0, *s1, *s2;
+	KSI_TreeBuilder *b = nondet_bool() ? &g_tb : NULL;
 	if (!mk_builder_small()) return;
 	if (nondet_bool()) g_tb.rootNode = &g_occ;
+	__CPROVER_assume(g_w1 < g_w2 && g_w2 < KSI_TREE_BUILDER_STACK_LEN);   /* witness indices (harness artefact) */
 	g_live = 7; g_alloc_failed = 0;
 	tr_init();
-	res = KSI_TreeBuilder_close(nondet_bool() ? &g_tb : NULL);
+	live0 = g_live; failed0 = g_alloc_failed; root0 = g_tb.rootNode; s1 = g_tb.stack[g_w1]; s2 = g_tb.stack[g_w2];
+	res = KSI_TreeBuilder_close(b);
 	REACH("close returns");
 	/* reference fold of the property text: lowest slot first, the slot's subtree is the LEFT operand */
 	if (g_n0 != NULL) want = spec_tree_close_step(want, g_n0->level);
 	if (g_n1 != NULL) want = spec_tree_close_step(want, g_n1->level);
 	if (g_n2 != NULL) want = spec_tree_close_step(want, g_n2->level);
 	if (res == KSI_OK) {
-		__CPROVER_assert((long long)g_tb.rootNode->level == want, "close: root level equals the reference fold of the slot levels");
-		__CPROVER_assert(g_tb.rootNode->parent == NULL, "close: the root has no parent");
+		__CPROVER_assert(b != NULL && root0 == NULL && g_tb.rootNode != NULL, "close ok: builder given, was open, root set");
+		__CPROVER_assert(g_tb.stack[g_w1] == NULL && g_tb.stack[g_w2] == NULL, "close ok: every slot is empty");
+		__CPROVER_assert(g_live == live0 + (g_n0 != NULL && g_n1 != NULL) + ((g_n0 != NULL || g_n1 != NULL) && g_n2 != NULL), "close ok: one node allocated per join");
+		__CPROVER_assert((long long)g_tb.rootNode->level == want && want <= 0xff, "close ok: root level equals the reference fold of the slot levels");
+		__CPROVER_assert(g_tb.rootNode->parent == NULL, "close ok: the root has no parent");
 		if (g_n0 != NULL && g_n1 != NULL && g_n2 == NULL)
 			__CPROVER_assert(g_tb.rootNode->leftChild == g_n1 && g_tb.rootNode->rightChild == g_n0 && g_n0->parent == g_tb.rootNode && g_n1->parent == g_tb.rootNode,
-					"close: the older subtree (higher slot) is the left child, links both ways");
+					"close ok: the older subtree (higher slot) is the left child, links both ways");
 		if (g_n0 != NULL && g_n1 != NULL && g_n2 != NULL)
 			__CPROVER_assert(g_tb.rootNode->leftChild == g_n2 && g_tb.rootNode->rightChild == g_n0->parent && g_n0->parent == g_n1->parent && g_n0->parent->leftChild == g_n1,
-					"close: three subtrees are merged as (n2, (n1, n0))");
-		if (g_n0 != NULL && g_n1 == NULL && g_n2 == NULL) __CPROVER_assert(g_tb.rootNode == g_n0, "close: a single subtree is the root itself");
+					"close ok: three subtrees are merged as (n2, (n1, n0))");
+		if (g_n0 != NULL && g_n1 == NULL && g_n2 == NULL) __CPROVER_assert(g_tb.rootNode == g_n0, "close ok: a single subtree is the root itself");
 		REACH("closed");
 		if (g_n0 != NULL && g_n1 != NULL && g_n2 != NULL) REACH("closed with two joins");
 	} else {
-		if (g_n0 != NULL) __CPROVER_assert(g_n0->parent == NULL && g_n0->leftChild == NULL, "close failed: subtree 0 is untouched");
-		if (g_n1 != NULL) __CPROVER_assert(g_n1->parent == NULL && g_n1->leftChild == NULL, "close failed: subtree 1 is untouched");
-		if (g_n2 != NULL) __CPROVER_assert(g_n2->parent == NULL && g_n2->leftChild == NULL, "close failed: subtree 2 is untouched");
-		if (g_n0 != NULL && g_n1 != NULL && g_n2 != NULL && g_tb.rootNode == NULL) REACH("close failed in the second join");
+		if (b != NULL) {
+			__CPROVER_assert(g_tb.rootNode == root0, "close failed: rootNode unchanged");
+			__CPROVER_assert(g_tb.stack[g_w1] == s1 && g_tb.stack[g_w2] == s2, "close failed: stack view restored");
+		}
+		__CPROVER_assert(g_live == live0, "close failed: nothing allocated by the call survives");
+		__CPROVER_assert(IMPLIES(b != NULL && root0 != NULL, res == KSI_INVALID_STATE), "close of a closed tree: KSI_INVALID_STATE");
+		__CPROVER_assert(b == NULL || root0 != NULL || (g_n0 == NULL && g_n1 == NULL && g_n2 == NULL && res == KSI_INVALID_STATE) ||
+				g_tr_failed || g_alloc_failed > failed0 || want > 0xff || want < -1, "close failed: there is a reason");
+		if (g_n0 != NULL) __CPROVER_assert(g_n0->parent == NULL && g_n0->leftChild == NULL && g_n0->rightChild == NULL, "close failed: subtree 0 is untouched");
+		if (g_n1 != NULL) __CPROVER_assert(g_n1->parent == NULL && g_n1->leftChild == NULL && g_n1->rightChild == NULL, "close failed: subtree 1 is untouched");
+		if (g_n2 != NULL) __CPROVER_assert(g_n2->parent == NULL && g_n2->leftChild == NULL && g_n2->rightChild == NULL, "close failed: subtree 2 is untouched");
+		if (g_n0 != NULL && g_n1 != NULL && g_n2 != NULL && root0 == NULL && b != NULL) REACH("close failed in a join");
+	}
+}
+#endif
+
+#ifdef H_getchain
+/* Plain mode, bounded: a leaf with 0, 1 or 2 ancestors (arbitrary sides, levels, hash / meta-data siblings).
+ * Real KSI_TreeLeafHandle_getAggregationChain + getHashChainLinks; every callee of env/chain_env.h may fail. */
+static KSI_TreeNode *mk_tree_node(void) {
+	KSI_TreeNode *n = mk_node();
+	if (n != NULL && n->metaData != NULL) n->metaData->toMetaDataElement = md_stub_toMetaDataElement;
+	return n;
+}
+static void link_up(KSI_TreeNode *parent, KSI_TreeNode *child, KSI_TreeNode *sib, int childIsLeft) {
+	child->parent = parent;
+	if (sib != NULL) sib->parent = parent;
+	parent->leftChild = childIsLeft ? child : sib;
+	parent->rightChild = childIsLeft ? sib : child;
+}
+void harness(void) {
+	KSI_TreeNode *leaf = mk_tree_node(), *s1 = mk_tree_node(), *p1 = mk_tree_node(), *s2 = mk_tree_node(), *p2 = mk_tree_node();
+	struct KSI_TreeLeafHandle_st h;
+	static struct KSI_AggregationHashChain_st sentinel_obj;
+	KSI_AggregationHashChain *sentinel = &sentinel_obj, *out = sentinel;
+	int depth = nondet_int(), side1 = nondet_bool(), side2 = nondet_bool(), res;
+	long live0; size_t ref0 = 0, sref1 = 0;
+	if (leaf == NULL || s1 == NULL || p1 == NULL || s2 == NULL || p2 == NULL) return;
+	if (depth < 0 || depth > 2) return;
+	if (!TN_WELLFORMED(leaf)) return;          /* leaves come from KSI_TreeNode_new */
+	if (depth >= 1) link_up(p1, leaf, nondet_bool() ? s1 : NULL, side1);
+	if (depth >= 2) link_up(p2, p1, nondet_bool() ? s2 : NULL, side2);
+	g_tb.ctx = &g_ctx_obj; g_tb.algo = (KSI_HashAlgorithm)nondet_int();
+	h.ref = 1; h.pBuilder = &g_tb; h.leafNode = leaf;
+	g_obj_live = 3; g_ll_n = 0; g_ll_list = NULL;
+	live0 = g_obj_live;
+	if (leaf->hash != NULL) ref0 = leaf->hash->ref;
+	if (s1->hash != NULL) sref1 = s1->hash->ref;
+	res = KSI_TreeLeafHandle_getAggregationChain(&h, &out);
+	REACH("getAggregationChain returns");
+	if (res != KSI_OK) {
+		__CPROVER_assert(out == sentinel, "chain failed: out-parameter untouched");
+		__CPROVER_assert(g_obj_live == live0, "chain failed: no object created by the call survives");
+		__CPROVER_assert(leaf->hash == NULL || leaf->hash->ref == ref0, "chain failed: no reference to the leaf hash is kept");
+		__CPROVER_assert(s1->hash == NULL || s1->hash->ref == sref1, "chain failed: no reference to a sibling hash is kept");
+		if (depth == 2) REACH("chain extraction failed for a leaf two levels down");
+	} else {
+		__CPROVER_assert(out != sentinel && out->chain == g_ll_list && g_ll_n == (size_t)depth, "chain ok: one link per ancestor, in the chain's list");
+		__CPROVER_assert(out->inputHash == leaf->hash && (leaf->hash == NULL || leaf->hash->ref == ref0 + 1), "chain ok: input hash is the leaf hash (one more reference)");
+		__CPROVER_assert(out->aggrHashId != NULL && out->aggrHashId->value == (KSI_uint64_t)g_tb.algo, "chain ok: aggregation algorithm of the builder");
+		if (depth >= 1) {
+			KSI_TreeNode *sib = side1 ? p1->rightChild : p1->leftChild;
+			__CPROVER_assert(g_ll_el[0]->isLeft == side1, "link 1: direction is the side of the child");
+			__CPROVER_assert(sib != NULL && g_ll_el[0]->imprint == sib->hash, "link 1: sibling hash");
+			__CPROVER_assert((g_ll_el[0]->metaData != NULL) == (sib->metaData != NULL), "link 1: sibling meta-data");
+			__CPROVER_assert(p1->level > leaf->level, "link 1: parent level above child level");
+			__CPROVER_assert((g_ll_el[0]->levelCorrection == NULL ? 0 : g_ll_el[0]->levelCorrection->value) ==
+					(KSI_uint64_t)spec_tree_level_correction(p1->level, leaf->level), "link 1: level correction == parent.level - child.level - 1");
+		}
+		if (depth >= 2) {
+			KSI_TreeNode *sib = side2 ? p2->rightChild : p2->leftChild;
+			__CPROVER_assert(g_ll_el[1]->isLeft == side2 && sib != NULL && g_ll_el[1]->imprint == sib->hash, "link 2: direction and sibling hash");
+			__CPROVER_assert((g_ll_el[1]->levelCorrection == NULL ? 0 : g_ll_el[1]->levelCorrection->value) ==
+					(KSI_uint64_t)spec_tree_level_correction(p2->level, p1->level), "link 2: level correction == parent.level - child.level - 1");
+			REACH("two links extracted");
+		}
+		KSI_AggregationHashChain_free(out);
+		__CPROVER_assert(g_obj_live == live0, "chain ok: freeing the chain releases everything it created");
+		__CPROVER_assert(leaf->hash == NULL || leaf->hash->ref == ref0, "chain ok: freeing the chain drops its reference to the leaf hash");
 	}
 }
 #endif
